@@ -193,3 +193,15 @@ CHECKS["C20"] = {
          "what": "same, every completion order of the per-type groups and per-entity goroutines (3 representations over the first 3 / 6 shapes), with the happens-before race check on the result list"},
     ],
 }
+
+_WS = {"pkg": "graphql/handler/transport", "workers": 8}
+CHECKS["C11"] = {
+    "assumptions": ["gorilla's *websocket.Conn methods WriteMessage/Close/Subprotocol/SetReadDeadline are name-intercepted stubs under the engine (frames of interest go through the messageExchanger fake); native replays use a real server-side connection over loopback",
+                    "client message sequences are bounded scripts; executor is a fake with the contract that C03 establishes for the real one"],
+    "harnesses": [
+        dict(_WS, harness="Harness_C11_init", reach=["c11.init.accepted", "c11.init.refused"], quick={"sample_models": 60, "sample_every": 11},
+             what="wsConnection.init: 15 first-frame kinds x 6 payloads x 4 init-function behaviours x 2 subprotocols"),
+        dict(_WS, harness="Harness_C11_subscribe", reach=["c11.sub.ran", "c11.sub.rejected"], quick={"sample_models": 40, "sample_every": 7},
+             what="wsConnection.subscribe + its goroutine: verdict x 0..2 payloads x panic at step k x subscription error x 3 start payloads"),
+    ],
+}
